@@ -144,6 +144,14 @@ CHECKS = {
         note="Partial: which evaluations the evaluator performs is not modelled (end-to-end only). Limitation: calls via `self.` and calls of top-level methods from inside class bodies are keyed differently and not listed (not generated).",
         technique="Lean 4 proof over evaluation schedules + regenerated source facts + end-to-end call-graph comparison",
     ),
+    "C22": dict(
+        category="proof",
+        text="Row/tag bookkeeping: Lean proves that ErrorRow captured right after a freshly lexed non-newline token (the `def` keyword, where Def.Evaluation reads defineRow) is the line that token starts on — for every parser state, multi-line signatures included — and that after ANY sequence of private/protected/public keywords exactly the tag of the last one applies (the both-flags case of the printer's switch is unreachable). "
+             "Rows are part of every answer of the tok stream. End-to-end: generated classes with sections, def self., class << self, endless and multi-line definitions and top-level methods: -i hint and --define record per method (file, row of def, c/ i/ tag, visibility), --hover on every single-call row.",
+        design="DESIGN.md §4 C22",
+        note="Partial: which article is recorded for which definition is evaluator behaviour (end-to-end only). An endless-definition defect was repaired by a fix: commit.",
+        technique="Lean 4 proof (row and visibility-flag lemmas) + differential tok stream + end-to-end definition-info comparison",
+    ),
 }
 
 PENDING_REASON = "check not built yet in this session (see DESIGN.md §4 for the planned Lean model and theorem); not claimed until its check exists"
